@@ -117,6 +117,10 @@ class StmtMixin:
 
     def st_AnnAssign(self, s, st, fr):
         if s.value is None:
+            # `meta: DOptional` - the code's own statement of the static class of a variable: re-tag, assume nothing
+            if isinstance(s.target, ast.Name) and s.target.id in st.env and isinstance(s.annotation, ast.Name) \
+                    and s.annotation.id in self.repo.classes and st.env[s.target.id].pt == "any":
+                st.env[s.target.id] = SV(st.env[s.target.id].t, "obj:" + s.annotation.id)
             return [Outcome("normal", st)]
         val = self.ev(s.value, st, fr)
         self.assign_place(s.target, val, st, fr)
@@ -402,6 +406,13 @@ class StmtMixin:
             out = []
             for cl in inv.clauses:
                 out.append((cl.name, self.eval_clause(cl, tmp, spec_fr)))
+            # implicit clause: declared element sorts of modified local containers are preserved
+            for n in sorted(names):
+                x = state.env.get(n)
+                if x is not None and x.t is not None and x.pt in ("list", "set", "tuple"):
+                    f = self.elem_type_fact(x.t, x.pt, self.attr_sort(n + "[]", fr))
+                    if f is not None:
+                        out.append((f"auto_elem_{n}", f))
             state.facts[:] = tmp.facts
             return out
 
